@@ -471,6 +471,11 @@ func (vc *VC) typeAssert(fr *frame, st *State, in *ssa.TypeAssert) Value {
 			}
 			val = sv
 		}()
+	} else if to.K == KSlice {
+		// a slice held in an interface: the payload is not modelled (an arbitrary well-formed slice)
+		ok = Eq(vc.tagOf(x), vc.tagFor(to))
+		val = vc.freshValue(in.Name()+":unboxed", to)
+		vc.note("slices held in interface values are opaque (unboxing yields an arbitrary slice)")
 	} else {
 		if !to.single() && to.K != KUnit {
 			vc.fail("type assertion to composite type %s", to)
@@ -487,7 +492,7 @@ func (vc *VC) typeAssert(fr *frame, st *State, in *ssa.TypeAssert) Value {
 	}
 	ok = vc.script.Define(in.Name()+":ok", ok)
 	if in.CommaOk {
-		if to.single() && to.K != KStruct {
+		if to.single() && to.K != KStruct && to.K != KSlice {
 			// the value component is the zero value when the assertion fails
 			z := vc.toTerm(vc.zeroValue(to))
 			val = vc.wrap(Ite(ok, vc.toTerm(val), z), to)
